@@ -16,6 +16,7 @@ Schedule format (JSON, also the replay format; `@k` selects a pool, default 0):
 import itertools, json, os, subprocess, sys, time
 from concurrent.futures import ThreadPoolExecutor
 import vlib
+from props import c16wire
 
 COQ_FILES = ["Pause/Model.v", "Pause/Proofs.v", "Pause/Mutants.v", "Pause/ReloadModel.v", "Pause/ReloadProofs.v", "Pause/Props.v"]
 PREAMBLE = "From PV Require Import Pause.Model.\nFrom Coq Require Import List. Import ListNotations."
@@ -724,6 +725,12 @@ def call_site_shape(run):
         return "pool.wait_paused().await no longer precedes the checkout pool.get(..)"
     if k < 0 or not (i < k < j):
         return "the pool is no longer re-resolved between wait_paused() and the checkout"
+
+    def indent_at(pos):
+        ls = src.rfind("\n", 0, pos) + 1
+        return pos - ls
+    if indent_at(i) != indent_at(k):
+        return "pool.wait_paused().await is nested in a condition (it is not at the block level of `pool = self.get_pool()`): the gate is no longer passed before EVERY checkout"
     return None
 
 
@@ -734,7 +741,7 @@ def check(run):
         "Env tokio 1.29.1 Notify (sync/notify.rs:472-474, 505-515, 619-636, 918-923): notified() snapshots the notify_waiters call counter; a later notify_waiters() completes the future even if never polled — modelled as gen/snap, exercised by every hooked schedule, not proved",
         "Ordering::Relaxed accesses to `paused` are modelled as sequentially consistent atomic steps (platform assumption; the hooked harness serialises steps through a mutex, the free-running races run the real orderings on x86-64)",
         "one admin console issues PAUSE/RESUME sequentially (a PAUSE between another console's store and notify is outside the guarantee: c16_two_admin_refuted)",
-        "the client task calls wait_paused() exactly once before each checkout (client.rs Client::handle, before `pool.get`); the call site itself is read, not executed, by this check (wire level is a separate harness)",
+        "wire leg: the mock PostgreSQL backend and the scripted client of harness bin `wire`; 'needs a checkout' (transaction mode: not in a transaction; session mode: never served) is scenario knowledge; a statement is 'held' if it is not answered within a 150 ms window AND does not reach any mock backend before the RESUME is sent",
     ]
     run.cov["trusted_base"] = ["coqc 8.16.1 kernel", "vm_compute", "harness/src/bin/pause.rs (hand-rolled executor, schedule driver, race driver)",
                                "/repo/src/verif_hooks.rs (cfg pgcat_verif only)", "props/c16.py (enumerator, monitor, comparison)",
@@ -815,6 +822,18 @@ def check(run):
         check_admin(run, binp)
         nv = len(run.violations)
 
+    # wire leg: the call site in Client::handle executed (transaction and session mode, real admin client)
+    if not nv:
+        okw, wlog, wbins = vlib.cargo_build(["wire"])
+        if not okw:
+            run.violation("tie-broken", "wire harness does not build against /repo", {"correspondence": "wire harness build", "log": wlog[-3000:]}, found_input=False)
+            nv += 1
+        else:
+            nvw, wscripts, wresults = c16wire.run_leg(run, wbins["wire"], quick)
+            nv += nvw
+            if not nvw:
+                c16wire.selftest(run, wbins["wire"], wscripts, wresults)
+
     # free-running races (hooks disarmed) with the stuck detector
     race = {"rounds": 0}
     if not nv:
@@ -879,6 +898,9 @@ def replay(run, path):
         out = _run_chunk(bins["pause"], [r["request"]])[0]
         print("replay (free-running, not deterministic):", json.dumps(out)[:2000])
         return 1 if out.get("violations") else 0
+    if "wire_scenario" in r:
+        okw, wlog, wbins = vlib.cargo_build(["wire"])
+        return c16wire.replay(run, wbins["wire"], r)
     if "admin_scenario" in r:
         ans = run_admin(bins["pause"], "replay", r["admin_scenario"]["ops"])
         for t in ans["trace"]:
